@@ -71,6 +71,8 @@ type Result struct {
 // and both functions, so another unordered access to the same field from a
 // different function, or to a different field, is still reported.
 var benignRaces = map[string]string{
+	"DefaultTaskQueue.queue: read@engine/pool.(*DefaultTaskQueue).Size / write@engine/pool.(*DefaultTaskQueue).Push":                   "the queue-filling heuristics of AddTask / getTask read the queue length under RegulationLock while Push / Pop run under queueLock: a single length word, used only to decide whether to print a warning",
+	"DefaultTaskQueue.queue: read@engine/pool.(*DefaultTaskQueue).Size / write@engine/pool.(*DefaultTaskQueue).Pop":                    "as above",
 	"ThreadPool.workerIdleMap: read@engine/pool.(*ThreadPool).SetWorkerCount / write@engine/pool.(*ThreadPoolWorker).run":              "SetWorkerCount polls len(workerIdleMap) without the lock until a worker is idle: a single word read in a sleep loop, no map access",
 	"varsScope.parent: read@scope.(*varsScope).Parent / write@scope.SetParentOfScope":                                                  "the parent is set once by the program thread before the scope is handed to the debugger (through the interrogation state's unlocked vs field); the console reads it while that thread is suspended",
 	"varsScope.parent: read@scope.(*varsScope).Parent / write@scope.(*varsScope).NewChild":                                             "as above (set once under the scope lock before the child is published)",
